@@ -115,6 +115,16 @@ func SpawnWorkers(c Cfg, n int, extraEnv func(i int) []string, gomaxprocs func(i
 			var p Partial
 			if err := ReadJSON(c.PartPath(i), &p); err != nil {
 				all, _ := os.ReadFile(logf)
+				if what, ok := CrashInSUT(string(all)); ok {
+					// the process was brought down by the code under test (an unrecovered
+					// panic in one of its goroutines, concurrent map writes, ...): that is a
+					// finding about the tree, not harness trouble
+					rp := filepath.Join(ReplayDir(), fmt.Sprintf("%s-process-crash-%s-%d.log", c.Property, c.Mode, i))
+					_ = os.WriteFile(rp, all, 0o644)
+					parts[i] = &Partial{Worker: i, GoMaxProcs: gmp, Counters: Counters{"worker_processes_crashed_by_sut": 1},
+						Violations: []ViolationRec{{Class: "process-crash", Detail: what, Replay: rp}}}
+					return
+				}
 				head, tail := all, []byte(nil)
 				if len(all) > 8000 {
 					head, tail = all[:4000], all[len(all)-4000:]
@@ -138,6 +148,49 @@ func SpawnWorkers(c Cfg, n int, extraEnv func(i int) []string, gomaxprocs func(i
 		}
 	}
 	return parts
+}
+
+// CrashInSUT decides whether a dead worker's log shows a Go runtime crash whose first
+// goroutine trace runs through the system under test before any harness frame.
+func CrashInSUT(log string) (string, bool) {
+	idx := -1
+	for _, marker := range []string{"fatal error: ", "\npanic: "} {
+		if k := strings.Index(log, marker); k >= 0 && (idx < 0 || k < idx) {
+			idx = k
+		}
+	}
+	if idx < 0 {
+		return "", false
+	}
+	rest := log[idx:]
+	// first goroutine block after the marker
+	g := strings.Index(rest, "\ngoroutine ")
+	if g < 0 {
+		return "", false
+	}
+	block := rest[g+1:]
+	if e := strings.Index(block, "\n\n"); e >= 0 {
+		block = block[:e]
+	}
+	sut := strings.Index(block, "github.com/anz-bank/sysl/pkg/")
+	if sut < 0 {
+		sut = strings.Index(block, "github.com/anz-bank/sysl/cmd/")
+	}
+	if sut < 0 {
+		return "", false
+	}
+	if h := strings.Index(block, "verif/sim/"); h >= 0 && h < sut {
+		return "", false
+	}
+	lines := strings.Split(block, "\n")
+	if len(lines) > 12 {
+		lines = lines[:12]
+	}
+	first := rest
+	if e := strings.Index(first, "\n"); e >= 0 {
+		first = first[:e]
+	}
+	return OneLine(strings.TrimSpace(first) + " :: " + strings.Join(lines, " | ")), true
 }
 
 // DumpDigests writes the union of the workers' digests to $VERIF_DIGESTS (if set).
